@@ -863,7 +863,7 @@ Definition an_op (o : op) : Prop :=
   match o with
   | OStart | OEnd | OFileInfo | OEndaccess _ | OWrite _ _ | ORead _ _ | OLen _ | OId2tagref _ | OCreatef _ _ _ => True
   | OCreate _ _ g r _ => u16 g /\ u16 r
-  | OSelect _ ty _ _ | OSelectAll ty => tyok ty
+  | OSelect _ ty _ _ => tyok ty
   | ONumann ty g r | OAnnlist ty g r => tyok ty
   | OTagref2id _ g r => u16 r
   | _ => False
@@ -1443,4 +1443,55 @@ Proof.
     replace ((idx <? 0) || (zlen (of_type ty (anns a)) <=? idx)) with true in HSp
       by (symmetry; apply orb_true_iff; left; apply Z.ltb_lt; lia).
     inversion HSp; subst. right. split; [|exact I]. pose proof (sim_unbind' h a l0 slot HS1) as X. rewrite (sim_sess _ _ HS), Eh in X. exact X.
+Qed.
+
+(* ================= I. the assembled step and run theorems (AN interface) ===================================== *)
+Theorem an_step_sim : forall h a o h' mr a' sr, Sim h a -> an_op o ->
+  mstep h o = (h', mr) -> step a (fill o mr) = (a', sr) ->
+  sr = RUnspec \/ exhausted sr mr \/ (Sim h' a' /\ accepts sr mr).
+Proof.
+  intros h a o h' mr a' sr HS Hop HM HSp. destruct o; simpl in Hop; try contradiction; unfold fill in HSp.
+  - destruct (sim_start _ _ _ _ _ _ HS HM HSp); auto.
+  - destruct (sim_end _ _ _ _ _ _ HS HM HSp); auto.
+  - destruct Hop as [Hg Hr]. exact (sim_create _ _ _ _ _ _ _ _ _ _ _ HS Hg Hr HM HSp).
+  - exact (sim_createf _ _ _ _ _ _ _ _ _ HS HM HSp).
+  - destruct (sim_write _ _ _ _ _ _ _ _ HS HM HSp); auto.
+  - destruct (sim_read _ _ _ _ _ _ _ _ HS HM HSp); auto.
+  - destruct (sim_len _ _ _ _ _ _ _ HS HM HSp); auto.
+  - destruct (sim_select _ _ _ _ _ _ _ _ _ _ HS Hop HM HSp); auto.
+  - destruct (sim_fileinfo _ _ _ _ _ _ HS HM HSp); auto.
+  - destruct (sim_numann _ _ _ _ _ _ _ _ _ HS Hop HM HSp); auto.
+  - destruct (sim_annlist _ _ _ _ _ _ _ _ _ HS Hop HM HSp); auto.
+  - destruct (sim_tagref2id _ _ _ _ _ _ _ _ _ HS Hop HM HSp); auto.
+  - destruct (sim_id2tagref _ _ _ _ _ _ _ HS HM HSp); auto.
+  - destruct (sim_endaccess _ _ _ _ _ _ _ HS HM HSp); auto.
+Qed.
+
+(** running M and S side by side; S is fed the refs M chose.  The run is accepted up to the first operation S puts
+    outside the domain (RUnspec) or the exhaustion of the 16-bit ref space (C20). *)
+Fixpoint run_ok (h : hstate) (a : state) (ops : list op) : Prop :=
+  match ops with
+  | [] => True
+  | o :: t => let '(h', mr) := mstep h o in let '(a', sr) := step a (fill o mr) in
+              sr = RUnspec \/ exhausted sr mr \/ (accepts sr mr /\ run_ok h' a' t)
+  end.
+
+Theorem an_run_sim : forall ops h a, Sim h a -> Forall an_op ops -> run_ok h a ops.
+Proof.
+  induction ops as [|o t IH]; simpl; intros h a HS Hops; [exact I|]. inversion Hops; subst.
+  destruct (mstep h o) as [h' mr] eqn:EM. destruct (step a (fill o mr)) as [a' sr] eqn:ES.
+  destruct (an_step_sim _ _ _ _ _ _ _ HS H1 EM ES) as [X|[X|[X Y]]]; auto.
+Qed.
+
+Lemma TF_init : TF linit.
+Proof. constructor; simpl; try discriminate; try contradiction. constructor. Qed.
+Lemma Sim_init : Sim hinit init.
+Proof.
+  constructor; simpl.
+  - split; [exact Inv_init | exact TF_init].
+  - constructor.
+  - intros x. split; [contradiction|]. intros [_ [[d [[] _]]|[_ [_ [t [e [C _]]]]]]]. discriminate.
+  - reflexivity.
+  - intros _. split; reflexivity.
+  - intros slot. reflexivity.
 Qed.
